@@ -1,10 +1,14 @@
 #!/bin/bash
-# tools/seedrun.sh <seeded-dir-name> <Cxx> [Cyy…]: apply seeded/<name>/patch.diff to /repo, run the checks, revert.
+# tools/seedrun.sh <seeded-dir-name> <Cxx> [Cyy…]: run the checks against /repo + seeded/<name>/patch.diff.
+# The patch is applied to a scratch worktree of /repo's HEAD (so that background runs against /repo are not disturbed;
+# `git -C /repo apply …; ./check …; git -C /repo checkout -- .` gives the same verdicts) and the checks are pointed at it.
 # Evidence and replays of these runs go to build/evidence-seed (the registered evidence/ describes the unchanged tree).
 d=/verif/seeded/$1; shift
 export VERIF_EVIDENCE_DIR=/verif/build/evidence-seed
-git -C /repo apply $d/patch.diff || exit 2
+w=/tmp/seedrun.$$
+git -C /repo worktree add --detach $w HEAD -q || exit 2
+git -C $w apply $d/patch.diff || { git -C /repo worktree remove --force $w; exit 2; }
 for p in "$@"; do
-  (cd /verif && ./check $p 2>&1 | grep -v KNOWN-FINDING | tail -2; head -5 $VERIF_EVIDENCE_DIR/replay/$p-0.case 2>/dev/null | cut -c1-300)
+  (cd /verif && VERIF_REPO=$w ./check $p 2>&1 | grep -v "KNOWN-FINDING\|^NOTE" | tail -2; head -5 $VERIF_EVIDENCE_DIR/replay/$p-0.case 2>/dev/null | cut -c1-300)
 done
-git -C /repo checkout -- .
+git -C /repo worktree remove --force $w
